@@ -38,7 +38,7 @@ Lemma malloc_stack_core base r m fS fZ fV fC fCB p q :
     (mf = mem_write (mem_write m5 a3 p) 16384 q \/
      mf = mem_write (mem_write (mem_write m5 16384 16385) a3 p) 16384 q) /\
     cr c' 1 = mem_read mf a4 /\ cr c' 2 = mem_read mf a5 /\ cr c' 3 = mem_read mf a6 /\
-    cpc c' = mem_read mf a0 /\ cr c' 14 = mem_read mf a1 /\ cr c' 15 = r 15 /\
+    cpc c' = mem_read mf a0 /\ cr c' 14 = mem_read mf a1 /\ cr c' 15 = r 15 /\ cr c' 12 = r 14 /\
     (forall j, 4 <= j <= 10 -> cr c' j = r j).
 Proof.
   intros Hb Hb2 R0 SP0 SP a0 a1 a3 a4 a5 a6 m5 n cur Hn Hc A. unfold alloc, heap_cell, heap_end in *.
@@ -94,24 +94,24 @@ Proof.
   repeat constructor; cbn [valid_instr reg_ok]; rewrite ?A, ?B by lia; reflexivity.
 Qed.
 
-Theorem malloc_stack_contract base s p q :
-  0 <= base -> base + 41 < 65536 -> List.length (regs s) = 16%nat -> pc s = base -> wf_mem (mem s) ->
-  getreg s 0 = 0 -> 0 <= getreg s 15 -> getreg s 15 + 3 < 65536 ->
-  word (getreg s 1) -> word (getreg s 2) -> word (getreg s 3) -> word (getreg s 12) -> word (getreg s 13) ->
-  let a k := (getreg s 14 + k) mod 65536 in
+Lemma malloc_stack_core2 base r m fS fZ fV fC fCB p q :
+  0 <= base -> base + 41 < 65536 -> wf_mem m ->
+  r 0 = 0 -> 0 <= r 15 -> r 15 + 3 < 65536 ->
+  word (r 1) -> word (r 2) -> word (r 3) -> word (r 12) -> word (r 13) ->
+  let a k := (r 14 + k) mod 65536 in
   (forall k, 0 <= k <= 6 -> a k <> heap_cell) ->                 (* the frame is not on the heap pointer *)
-  alloc (mem_read (mem s) heap_cell) (mem_read (mem s) (a 3)) = Some (p, q) ->
-  exists n s', run_at base (malloc_stack_code base) n s = Some s' /\
-    mem_read (mem s') (a 3) = p /\ mem_read (mem s') heap_cell = q /\
-    (forall b, 0 <= b -> b <> heap_cell -> (forall k, 0 <= k <= 6 -> b <> a k) -> mem_read (mem s') b = mem_read (mem s) b) /\
-    getreg s' 1 = getreg s 1 /\ getreg s' 2 = getreg s 2 /\ getreg s' 3 = getreg s 3 /\
-    pc s' = getreg s 13 /\ getreg s' 14 = getreg s 12 /\ getreg s' 15 = getreg s 15 /\
-    (forall j, 4 <= j <= 10 -> getreg s' j = getreg s j).
+  alloc (mem_read m heap_cell) (mem_read m (a 3)) = Some (p, q) ->
+  exists n c', crun_at base (malloc_stack_code base) n (mkcore r m base fS fZ fV fC fCB) = Some c' /\
+    mem_read (cmem c') (a 3) = p /\ mem_read (cmem c') heap_cell = q /\
+    (forall b, 0 <= b -> b <> heap_cell -> (forall k, 0 <= k <= 6 -> b <> a k) -> mem_read (cmem c') b = mem_read m b) /\
+    cr c' 1 = r 1 /\ cr c' 2 = r 2 /\ cr c' 3 = r 3 /\
+    cpc c' = r 13 /\ cr c' 14 = r 12 /\ cr c' 15 = r 15 /\
+    (forall j, 4 <= j <= 10 -> cr c' j = r j) /\ cr c' 12 = r 14 /\ wf_mem (cmem c').
 Proof.
-  intros Hb Hb2 L P WM R0 SP0 SP W1 W2 W3 W12 W13 a NH A. unfold heap_cell in *.
-  set (a0 := (getreg s 14 + 0) mod 65536). set (a1 := (getreg s 14 + 1) mod 65536).
-  set (a3 := (getreg s 14 + 3) mod 65536). set (a4 := (getreg s 14 + 4) mod 65536).
-  set (a5 := (getreg s 14 + 5) mod 65536). set (a6 := (getreg s 14 + 6) mod 65536).
+  intros Hb Hb2 WM R0 SP0 SP W1 W2 W3 W12 W13 a NH A. unfold heap_cell in *.
+  set (a0 := (r 14 + 0) mod 65536). set (a1 := (r 14 + 1) mod 65536).
+  set (a3 := (r 14 + 3) mod 65536). set (a4 := (r 14 + 4) mod 65536).
+  set (a5 := (r 14 + 5) mod 65536). set (a6 := (r 14 + 6) mod 65536).
   assert (B0 : 0 <= a0 < 65536) by (apply Z.mod_pos_bound; lia).
   assert (B1 : 0 <= a1 < 65536) by (apply Z.mod_pos_bound; lia).
   assert (B3 : 0 <= a3 < 65536) by (apply Z.mod_pos_bound; lia).
@@ -136,15 +136,15 @@ Proof.
                      | Hx : 0 <= ?x < _ |- 0 <= ?x => exact (proj1 Hx)
                      | Hx : 0 <= ?x < 65536 |- 0 <= ?x < 65536 => exact Hx
                      end ].
-  set (m1 := mem_write (mem s) a0 (getreg s 13)). set (m2 := mem_write m1 a1 (getreg s 12)).
-  set (m3 := mem_write m2 a4 (getreg s 1)). set (m4 := mem_write m3 a5 (getreg s 2)). set (m5 := mem_write m4 a6 (getreg s 3)).
+  set (m1 := mem_write m a0 (r 13)). set (m2 := mem_write m1 a1 (r 12)).
+  set (m3 := mem_write m2 a4 (r 1)). set (m4 := mem_write m3 a5 (r 2)). set (m5 := mem_write m4 a6 (r 3)).
   assert (WM1 : wf_mem m1) by (apply wf_mw; sc). assert (WM2 : wf_mem m2) by (apply wf_mw; sc).
   assert (WM3 : wf_mem m3) by (apply wf_mw; sc). assert (WM4 : wf_mem m4) by (apply wf_mw; sc).
   assert (WM5 : wf_mem m5) by (apply wf_mw; sc).
-  assert (R5 : forall b, 0 <= b -> b <> a0 -> b <> a1 -> b <> a4 -> b <> a5 -> b <> a6 -> mem_read m5 b = mem_read (mem s) b).
+  assert (R5 : forall b, 0 <= b -> b <> a0 -> b <> a1 -> b <> a4 -> b <> a5 -> b <> a6 -> mem_read m5 b = mem_read m b).
   { intros b Hb0 N0 N1 N4 N5 N6. unfold m5, m4, m3, m2, m1. rewrite !mrw_other by sc. reflexivity. }
-  assert (En : mem_read m5 a3 = mem_read (mem s) a3) by (apply R5; sc).
-  assert (Ec : mem_read m5 16384 = mem_read (mem s) 16384) by (apply R5; sc).
+  assert (En : mem_read m5 a3 = mem_read m a3) by (apply R5; sc).
+  assert (Ec : mem_read m5 16384 = mem_read m 16384) by (apply R5; sc).
   change (a 3) with a3 in A |- *. rewrite <- En, <- Ec in A.
   pose proof (mr_word m5 a3 WM5) as Wn. pose proof (mr_word m5 16384 WM5) as Wc.
   assert (Wpq : 0 <= p < 65536 /\ 0 <= q < 65536).
@@ -155,13 +155,10 @@ Proof.
     - destruct (mem_read m5 16384 + mem_read m5 a3 <? 49151) eqn:LT; [|discriminate A].
       assert (p = mem_read m5 16384) by congruence. assert (q = mem_read m5 16384 + mem_read m5 a3) by congruence. lia. }
   destruct Wpq as (Wp & Wq).
-  destruct (malloc_stack_core base (getreg s) (mem s) (flag (f_s s)) (flag (f_z s)) (flag (f_v s)) (flag (f_c s))
-              (flag (f_cb s)) p q Hb Hb2 R0 SP0 SP Wn Wc A)
-    as (n & c' & mf & E & Q0 & QM & Q1 & Q2 & Q3 & Q4 & Q5 & Q6 & Q7).
+  destruct (malloc_stack_core base r m fS fZ fV fC fCB p q Hb Hb2 R0 SP0 SP Wn Wc A)
+    as (n & c' & mf & E & Q0 & QM & Q1 & Q2 & Q3 & Q4 & Q5 & Q6 & Q12 & Q7).
   fold a0 a1 a3 a4 a5 a6 m1 m2 m3 m4 m5 in QM, Q1, Q2, Q3, Q4, Q5.
-  pose proof (sim_core_of s L) as S0. unfold core_of in S0. rewrite P in S0.
-  destruct (sim_run base (malloc_stack_code base) (malloc_stack_valid base Hb Hb2) n s _ c' S0 E) as (s' & Rn & S').
-  exists n, s'. split; [exact Rn|].
+  exists n, c'. split; [exact E|].
   assert (Wk : word 16385) by (clear; unfold word; lia).
   assert (RF : forall b, 0 <= b -> mem_read mf b = if b =? 16384 then q else if b =? a3 then p else mem_read m5 b).
   { intros b Hb0. destruct QM as [-> | ->].
@@ -176,9 +173,8 @@ Proof.
       rewrite mrw_other by sc. apply mrw_other; sc. }
   assert (K : forall b, 0 <= b -> b <> 16384 -> b <> a3 -> mem_read mf b = mem_read m5 b).
   { intros b Hb0 N1 N2. rewrite RF by sc. apply Z.eqb_neq in N1, N2. rewrite N1, N2. reflexivity. }
-  rewrite !(sim_reg s' c' _ S') by (clear; lia). rewrite (sim_pc s' c' S'), (sim_mem s' c' S').
   rewrite Q0, Q1, Q2, Q3, Q4, Q5, Q6.
-  repeat split.
+  split; [|split; [|split; [|split; [|split; [|split; [|split; [|split; [|split; [|split; [|split]]]]]]]]]].
   - rewrite RF by sc. apply Z.eqb_neq in H3. rewrite H3, Z.eqb_refl. reflexivity.
   - rewrite RF by sc. reflexivity.
   - intros b Hb0 N NK. rewrite K; [|sc|sc|apply (NK 3); clear; lia].
@@ -188,5 +184,37 @@ Proof.
   - rewrite K by sc. unfold m5. apply mrw_same; sc.
   - rewrite K by sc. unfold m5, m4, m3, m2. rewrite !mrw_other by sc. unfold m1. apply mrw_same; sc.
   - rewrite K by sc. unfold m5, m4, m3. rewrite !mrw_other by sc. unfold m2. apply mrw_same; sc.
-  - intros j Hj. rewrite (sim_reg s' c' j S') by (clear - Hj; lia). apply Q7, Hj.
+  - reflexivity.
+  - exact Q7.
+  - exact Q12.
+  - destruct QM as [-> | ->].
+    + apply wf_mw; [apply wf_mw; [exact WM5|exact B3|exact Wp]|clear; lia|exact Wq].
+    + apply wf_mw; [apply wf_mw; [apply wf_mw; [exact WM5|clear; lia|exact Wk]|exact B3|exact Wp]|clear; lia|exact Wq].
+Qed.
+
+(* the routine on the specification machine itself *)
+Theorem malloc_stack_contract base s p q :
+  0 <= base -> base + 41 < 65536 -> List.length (regs s) = 16%nat -> pc s = base -> wf_mem (mem s) ->
+  getreg s 0 = 0 -> 0 <= getreg s 15 -> getreg s 15 + 3 < 65536 ->
+  word (getreg s 1) -> word (getreg s 2) -> word (getreg s 3) -> word (getreg s 12) -> word (getreg s 13) ->
+  let a k := (getreg s 14 + k) mod 65536 in
+  (forall k, 0 <= k <= 6 -> a k <> heap_cell) ->                 (* the frame is not on the heap pointer *)
+  alloc (mem_read (mem s) heap_cell) (mem_read (mem s) (a 3)) = Some (p, q) ->
+  exists n s', run_at base (malloc_stack_code base) n s = Some s' /\
+    mem_read (mem s') (a 3) = p /\ mem_read (mem s') heap_cell = q /\
+    (forall b, 0 <= b -> b <> heap_cell -> (forall k, 0 <= k <= 6 -> b <> a k) -> mem_read (mem s') b = mem_read (mem s) b) /\
+    getreg s' 1 = getreg s 1 /\ getreg s' 2 = getreg s 2 /\ getreg s' 3 = getreg s 3 /\
+    pc s' = getreg s 13 /\ getreg s' 14 = getreg s 12 /\ getreg s' 15 = getreg s 15 /\
+    (forall j, 4 <= j <= 10 -> getreg s' j = getreg s j).
+Proof.
+  intros Hb Hb2 L P WM R0 SP0 SP W1 W2 W3 W12 W13 a NH A.
+  destruct (malloc_stack_core2 base (getreg s) (mem s) (flag (f_s s)) (flag (f_z s)) (flag (f_v s)) (flag (f_c s))
+              (flag (f_cb s)) p q Hb Hb2 WM R0 SP0 SP W1 W2 W3 W12 W13 NH A)
+    as (n & c' & E & Q1 & Q2 & Q3 & Q4 & Q5 & Q6 & Q7 & Q8 & Q9 & Q10 & _ & _).
+  pose proof (sim_core_of s L) as S0. unfold core_of in S0. rewrite P in S0.
+  destruct (sim_run base (malloc_stack_code base) (malloc_stack_valid base Hb Hb2) n s _ c' S0 E) as (s' & Rn & S').
+  exists n, s'. split; [exact Rn|].
+  rewrite !(sim_reg s' c' _ S') by (clear; lia). rewrite (sim_pc s' c' S'), (sim_mem s' c' S').
+  repeat split; try assumption.
+  intros j Hj. rewrite (sim_reg s' c' j S') by (clear - Hj; lia). apply Q10, Hj.
 Qed.
